@@ -21,10 +21,22 @@ EXPLANATION = ('Index invariant J (every index entry points at a current row wit
 
 
 def task_names(tier):
-    return ['reindex', 'insert', 'setitem', 'delitem', 'extend', 'extend_any', 'mixins', 'lookup']
+    return ['reindex', 'insert', 'setitem', 'delitem', 'extend', 'extend_any', 'mixins', 'lookup', 'derived/slice', 'derived/filter']
 
 
 def run_task(name, tier):
+    if name.startswith('derived/'):
+        # derived grids (slices, filter results) start without an index of their own and share none with their source (then J holds of them
+        # trivially and every later operation on either grid is covered by the tasks above): the obligations `index_not_shared` of
+        # Grid.__getitem__(slice) (C14 task read) and of the Grid.filter row loop (C11 task rowloop: a new grid built by the constructor)
+        if name == 'derived/slice':
+            from props import C14
+            r = C14.run_task('read', tier)
+        else:
+            from props import C11
+            r = C11.run_task('rowloop', tier)
+        r['task'] = name
+        return r
     T = Task(name)
     globals()['t_' + name](T, tier)
     return T.result()
